@@ -782,10 +782,22 @@ Quat<T>::setRotation (const Vec3<T>& from, const Vec3<T>& to) IMATH_NOEXCEPT
         // from f0 to h0, then from h0 to t0.
         //
 
-        Vec3<T> h0 = (f0 + t0).normalized ();
+        //
+        // f0 and t0 are unit vectors only up to rounding, so a sum
+        // that is shorter than a few epsilon consists of rounding
+        // errors and says nothing about the halfway direction (it
+        // can even be parallel to f0, which used to produce a zero
+        // or an identity quaternion).
+        //
 
-        if ((h0 ^ h0) != 0)
+        Vec3<T> h0   = f0 + t0;
+        T       hh   = h0 ^ h0;
+        const T tiny = T (32) * std::numeric_limits<T>::epsilon ();
+
+        if (hh > tiny * tiny)
         {
+            h0 /= std::sqrt (hh);
+
             setRotationInternal (f0, h0, *this);
 
             Quat<T> q;
@@ -796,21 +808,45 @@ Quat<T>::setRotation (const Vec3<T>& from, const Vec3<T>& to) IMATH_NOEXCEPT
         else
         {
             //
-            // f0 and t0 point in exactly opposite directions.
-            // Pick an arbitrary axis that is orthogonal to f0,
-            // and rotate by pi.
+            // f0 and t0 point in opposite directions, exactly or
+            // up to rounding.  Pick an arbitrary direction that is
+            // orthogonal to f0.
             //
 
-            r = T (0);
-
             Vec3<T> f02 = f0 * f0;
+            Vec3<T> a;
 
             if (f02.x <= f02.y && f02.x <= f02.z)
-                v = (f0 % Vec3<T> (1, 0, 0)).normalized ();
+                a = (f0 % Vec3<T> (1, 0, 0)).normalized ();
             else if (f02.y <= f02.z)
-                v = (f0 % Vec3<T> (0, 1, 0)).normalized ();
+                a = (f0 % Vec3<T> (0, 1, 0)).normalized ();
             else
-                v = (f0 % Vec3<T> (0, 0, 1)).normalized ();
+                a = (f0 % Vec3<T> (0, 0, 1)).normalized ();
+
+            if (hh == 0)
+            {
+                //
+                // Exactly opposite: rotate by pi around a.
+                //
+
+                r = T (0);
+                v = a;
+            }
+            else
+            {
+                //
+                // Nearly opposite: a is halfway between f0 and t0
+                // up to rounding; rotate from f0 to a, then from a
+                // to t0 (about 90 degrees each).
+                //
+
+                setRotationInternal (f0, a, *this);
+
+                Quat<T> q;
+                setRotationInternal (a, t0, q);
+
+                *this *= q;
+            }
         }
     }
 
